@@ -222,3 +222,48 @@ Example strip_example :
   strip_items [IList [LCom "// c"; LItem [IIdent "a"] (Some "// e"); LCom "// d"; LItem [IIdent "b"] None]]
   = [IList [LItem [IIdent "a"] None; LItem [IIdent "b"] None]].
 Proof. reflexivity. Qed.
+
+(* ---------------------------------------------------------------------------------------------
+   Symbol operators written without blanks.  Model: C10Ident.v after_operand_lex — after a term the
+   greedy `postfix_op*` (factorial | access | call_list | dot_access, GENERATED order and form of
+   `factorial`) and then the symbol alternative of `infix_usage` with the GENERATED ordered choice
+   `infix_op` and the literal of each operator rule. *)
+
+(* P0  Every symbol operator, written directly after an operand (also after a factorial or a field
+   access) and directly before the next operand, is read as itself: no shorter alternative of the
+   ordered choice wins (`<=` vs `<`, `.<=` vs `.<`, ...) and no postfix operator takes its first
+   character — except `!=` while `factorial` is the bare "!" (class of the open finding
+   C10-bang-equals).  Finite: the 21 alternatives of infix_op. *)
+Theorem C10_tight_operators :
+  forallb (fun rw => (known_bang (fst rw) && Nat.eqb factorial_guard 0)
+                     || after_is (after_operand_impl (snd rw ++ "b")) 0 0 (fst rw) "b") infix_ops = true
+  /\
+  forallb (fun rw => (known_bang (fst rw) && Nat.eqb factorial_guard 0)
+                     || (after_is (after_operand_impl ("!" ++ snd rw ++ "b")) 1 0 (fst rw) "b" &&
+                         after_is (after_operand_impl (".f" ++ snd rw ++ "b")) 0 1 (fst rw) "b")) infix_ops = true
+  /\
+  forallb (fun rw => after_is (after_operand_impl (" " ++ snd rw ++ " b")) 0 0 (fst rw) "b" &&
+                     after_is (after_operand_impl (" " ++ snd rw ++ "b")) 0 0 (fst rw) "b") infix_ops = true.
+Proof. exact (conj tight_ops_all (conj tight_ops_after_postfix spaced_ops_all)). Qed.
+Check C10_tight_operators :
+  forallb (fun rw => (known_bang (fst rw) && Nat.eqb factorial_guard 0)
+                     || after_is (after_operand_impl (snd rw ++ "b")) 0 0 (fst rw) "b") infix_ops = true
+  /\
+  forallb (fun rw => (known_bang (fst rw) && Nat.eqb factorial_guard 0)
+                     || (after_is (after_operand_impl ("!" ++ snd rw ++ "b")) 1 0 (fst rw) "b" &&
+                         after_is (after_operand_impl (".f" ++ snd rw ++ "b")) 0 1 (fst rw) "b")) infix_ops = true
+  /\
+  forallb (fun rw => after_is (after_operand_impl (" " ++ snd rw ++ " b")) 0 0 (fst rw) "b" &&
+                     after_is (after_operand_impl (" " ++ snd rw ++ "b")) 0 0 (fst rw) "b") infix_ops = true.
+Print Assumptions C10_tight_operators.
+
+(* The statement without the exclusion ... *)
+Definition C10_tight_operators_full : Prop := tight_ops_full.
+(* ... is REFUTED while `factorial = { "!" }`: after an operand, `!=b` reads one factorial and leaves
+   `=b` (witness); with fixes/C10-bang-equals.diff the generated guard is 2 and the full statement holds *)
+Lemma C10_tight_operators_full_refuted : factorial_guard = 0 -> ~ C10_tight_operators_full.
+Proof. exact tight_ops_full_refuted. Qed.
+Lemma C10_bang_equals_witness : factorial_guard = 0 -> after_operand_impl "!=b" = AfterNothing 1 0 "=b".
+Proof. exact bang_equals_witness. Qed.
+Lemma C10_tight_operators_full_when_fixed : factorial_guard <> 0 -> C10_tight_operators_full.
+Proof. exact tight_ops_full_when_guarded. Qed.
